@@ -877,7 +877,7 @@ Theorem unique_names_step st work name data r t1 :
   snd (unpack true work ((name, data) :: r) st) = false.
 Proof.
   intros p Hm Hl. cbn [unpack]. fold p. destruct (beneath work p); [|reflexivity]. cbn [negb].
-  change (s_fs (set_files st (assoc_set (s_files st) p name))) with (s_fs st). rewrite Hm.
+  change (s_fs (set_files st (assoc_set (s_files st) (clean p) name))) with (s_fs st). rewrite Hm.
   assert (write_file_excl t1 p data 438 = None) as ->; [|reflexivity].
   unfold write_file_excl. unfold lstat in Hl.
   destruct (ends_in_slash p || ends_in_dots p); [reflexivity|].
@@ -899,10 +899,10 @@ Theorem unpack_step st work (u : bool) name data r t1 t2 :
   mkdir_all (s_fs st) (dir p) 511 = (t1, true) ->
   (if u then write_file_excl t1 p data 438 else write_file t1 p data 438) = Some t2 ->
   unpack u work ((name, data) :: r) st
-  = unpack u work r (set_fs (set_files st (assoc_set (s_files st) p name)) t2).
+  = unpack u work r (set_fs (set_files st (assoc_set (s_files st) (clean p) name)) t2).
 Proof.
   intros p Hb Hm Hw. cbn [unpack]. fold p. rewrite Hb. cbn [negb].
-  change (s_fs (set_files st (assoc_set (s_files st) p name))) with (s_fs st). rewrite Hm, Hw. reflexivity.
+  change (s_fs (set_files st (assoc_set (s_files st) (clean p) name))) with (s_fs st). rewrite Hm, Hw. reflexivity.
 Qed.
 
 (* without the flag a later entry of the same name silently replaces the earlier one *)
@@ -912,7 +912,7 @@ Theorem non_unique_overwrites st work name data r t1 t2 :
   mkdir_all (s_fs st) (dir p) 511 = (t1, true) ->
   write_file t1 p data 438 = Some t2 ->
   unpack false work ((name, data) :: r) st
-  = unpack false work r (set_fs (set_files st (assoc_set (s_files st) p name)) t2).
+  = unpack false work r (set_fs (set_files st (assoc_set (s_files st) (clean p) name)) t2).
 Proof. intros p Hb Hm Hw. exact (unpack_step st work false name data r t1 t2 Hb Hm Hw). Qed.
 
 (* ---- entry names: expanded with the initial variables, refused when they leave $WORK *)
@@ -984,7 +984,7 @@ Proof.
   - lia.
 Qed.
 
-(* ... so an entry named $WORK/q is unpacked at, and registered under, <work>/q -- with the
+(* ... so an entry named $WORK/q is unpacked at <work>/q and registered under that path, cleaned -- with the
    name "$WORK/q" it has in the archive as the value update mode writes back *)
 Theorem work_named_entry st work (u : bool) q data r t1 t2 :
   let name := work_ref ++ [SLASH] ++ q in
@@ -995,19 +995,20 @@ Theorem work_named_entry st work (u : bool) q data r t1 t2 :
   mkdir_all (s_fs st) (dir p) 511 = (t1, true) ->
   (if u then write_file_excl t1 p data 438 else write_file t1 p data 438) = Some t2 ->
   exists st', unpack u work ((name, data) :: r) st = unpack u work r st'
-    /\ s_fs st' = t2 /\ assoc_get (s_files st') p = Some name.
+    /\ s_fs st' = t2 /\ assoc_get (s_files st') (clean p) = Some name.
 Proof.
   intros name p Hq Ha Hb Hm Hw.
   assert (mkabs st (expand (s_env st) name) = p) as Hp.
   { unfold name. rewrite (expand_work_named _ q Hq). fold p. unfold mkabs.
     assert (is_abs p = true) as ->; [|reflexivity].
     unfold p. destruct (getenv (s_env st) work_key) as [|c w]; [discriminate|]. exact Ha. }
-  exists (set_fs (set_files st (assoc_set (s_files st) p name)) t2). split; [|split].
+  exists (set_fs (set_files st (assoc_set (s_files st) (clean p) name)) t2). split; [|split].
   - rewrite <- Hp in Hb, Hm, Hw |- *. exact (unpack_step st work u name data r t1 t2 Hb Hm Hw).
   - reflexivity.
-  - cbn [s_files set_fs set_files]. clear. induction (s_files st) as [|[k v] m IH]; cbn [assoc_set assoc_get].
+  - cbn [s_files set_fs set_files]. clear. generalize (clean p) as k0. intros k0.
+    induction (s_files st) as [|[k v] m IH]; cbn [assoc_set assoc_get].
     + rewrite bytes_eqb_refl. reflexivity.
-    + destruct (bytes_eqb p k) eqn:E; cbn [assoc_get]; [rewrite bytes_eqb_refl; reflexivity|rewrite E; exact IH].
+    + destruct (bytes_eqb k0 k) eqn:E; cbn [assoc_get]; [rewrite bytes_eqb_refl; reflexivity|rewrite E; exact IH].
 Qed.
 
 Module ParamsExamples.
